@@ -501,6 +501,8 @@ def run(rep: Report, prog: Program, tier: str) -> None:
         media = SimpleNamespace(dtls=SimpleNamespace(role="auto"))
         e2 = Evaluator(prog, mod, None, {"media": media, "dtlsTransport": SimpleNamespace(_role=role)}, hook)
         try:
+            from .common import run_prelude
+            run_prelude(e2, create_answer.node, role_if)
             e2.exec_stmt(role_if)
         except (Raised, Unknown) as ex:
             raise AnalysisError(f"cannot evaluate the DTLS role assignment of createAnswer: {ex}")
@@ -575,6 +577,8 @@ def run(rep: Report, prog: Program, tier: str) -> None:
         for typ, role, want in (("answer", "auto", True), ("answer", "client", False), ("answer", "server", False), ("pranswer", "auto", True), ("offer", "auto", False)):
             e2 = Evaluator(prog, mod, None, {"description": SimpleNamespace(type=typ), "media": SimpleNamespace(dtls=SimpleNamespace(role=role))}, None)
             try:
+                from .common import run_prelude
+                run_prelude(e2, val.node, checks[0])
                 got = bool(e2.ev(checks[0].test))
             except Unknown as ex:
                 raise AnalysisError(f"cannot evaluate the role validation: {ex}")
@@ -853,7 +857,10 @@ def run(rep: Report, prog: Program, tier: str) -> None:
         media = SimpleNamespace(kind=kind, direction=direction, rtp=SimpleNamespace(muxId=mid, codecs=["c"], headerExtensions=["e"]), dtls=SimpleNamespace(role="auto"),
                                 ice=SimpleNamespace(iceLite=False, usernameFragment="u", password="p"))
         env = {"self": me, "media": media, "i": index, "description": SimpleNamespace(type=typ, media=[media]), "trackEvents": [], "dtlsTransport": None}
-        Evaluator(prog, set_remote.module, set_remote.cls, env, sr_hook).exec_stmt(sec_if)
+        ev_sec = Evaluator(prog, set_remote.module, set_remote.cls, env, sr_hook)
+        from .common import run_prelude
+        run_prelude(ev_sec, set_remote.node, sec_if)
+        ev_sec.exec_stmt(sec_if)
 
     def _pc(transceivers, sctp=None):
         me = SimpleNamespace(__cls__=set_remote.cls)
@@ -911,7 +918,10 @@ def run(rep: Report, prog: Program, tier: str) -> None:
         before = {id(transport_of(o)): transport_of(o) for o in members}
         env = {"self": me, "bundle": SimpleNamespace(semantic="BUNDLE", items=list(items)), "iceCandidates": {}, "description": SimpleNamespace(group=[])}
         try:
-            Evaluator(prog, set_remote.module, set_remote.cls, env, sr_hook).exec_stmt(bundle_if)
+            ev_b = Evaluator(prog, set_remote.module, set_remote.cls, env, sr_hook)
+            from .common import run_prelude
+            run_prelude(ev_b, set_remote.node, bundle_if)
+            ev_b.exec_stmt(bundle_if)
         except Raised as ex:
             rep.fail(mk_finding(prog, PROP, "C03-BUNDLE-EVAL", set_remote, getattr(ex, "node", None), f"[{label}] raises {ex.name}", construct=f"bundle raises {ex.name}"))
             return
